@@ -111,7 +111,7 @@ Definition member_of_hist (h : hist) : member :=
 
 Definition run_hist (h : hist) : list kv :=
   let m := member_of_hist h in
-  ("size", obs_wres OI (m_calc m)) ::
+  ("size", obs_wres OI (m_calc m)) :: ("get_padding", obs_optN (m_padding m)) ::
   match m_calc m with
   | Ok n => [("writes", OL [obs_write (m_write_into m (repeat 170%N n))])]
   | _ => [("writes", OL [obs_write (m_write_into m [])])]
